@@ -33,7 +33,7 @@ PARALLEL = 6
 IMPORTS = "From Verif Require Import Base.Xml Base.ClassTable C12.Model C12.Build C12.Corr.\nFrom VerifGen Require Import ClassTables C12Vocab."
 CASE_TYPE = "C12.Corr.case"
 RUNNER = "C12.Corr.run"
-FINDING_CLASSES = {1: "C12-F1", 2: "C12-F2", 3: "C12-F3", 4: "C12-F4", 5: "C12-F5", 6: "C12-F6", 7: "C12-F7", 8: "C12-F8", 9: "C12-F9", 10: "C12-F10"}
+FINDING_CLASSES = {1: "C12-F1", 2: "C12-F2", 3: "C12-F3", 4: "C12-F4", 5: "C12-F5", 6: "C12-F6", 7: "C12-F7", 8: "C12-F8", 9: "C12-F9", 10: "C12-F10", 11: "C12-F11"}
 RULE = ("every class of the live table (core: saml, samlp, md, xmldsig, xmlenc, extension.*, soapenv, ecp, paos, samlec; "
         "extra: ws.*, authn_context.*) x seeded random instances (minimal / random / with foreign elements, foreign "
         "attributes and hostile characters / every schema attribute present with the EMPTY string; attribute values, "
@@ -72,6 +72,12 @@ RULE = ("every class of the live table (core: saml, samlp, md, xmldsig, xmlenc, 
         "one pool of four foreign namespaces, prefixes from a pool of 22 (ns<N> forms, ElementTree's built-ins xs/xsi/dc, "
         "prefixes an earlier call of the same history asked for), nspairs partial or covering every namespace of the instance; "
         "the registry is reset before and after every case. "
+        "Round 7: MULTIPLICITY of a child member judged independently of the brackets of its c_children entry: for every child "
+        "member that the entry, c_cardinality (no max / max > 1), the constructor (stores a list for an absent argument) or the "
+        "XML Schema files (maxOccurs of the particle or an enclosing group) call repeatable, n = 1, 2, 3 (sampled: 33) marked "
+        "occurrences as a built instance and as an independently written document: all come back, as a list, in document order, "
+        "none as extension, and again after the next serialisation (every core class member x n; other classes one n, all n when "
+        "the sources disagree). "
         "non-trivial = distinct (kind, class, outcome, shape features: foreign elements/attributes, repeated singleton, "
         "character classes)")
 TRUSTED = ["independent reader: xml.etree.ElementTree (expat) applied to the library's output",
@@ -435,6 +441,7 @@ class Schemas:
         import glob
 
         self.elements, self.types, self.groups, self.local = {}, {}, {}, {}
+        self.rep = set()      # (round 7) child names met as REPEATABLE particles since the caller last cleared it
         self.files = 0
         for p in sorted(glob.glob(os.path.join(directory, "*.xsd"))):
             root = ET.parse(p).getroot()
@@ -503,6 +510,8 @@ class Schemas:
         many = collapse or p.get("maxOccurs", "1") != "1"
         if p.tag == _x("element"):
             out.append((self.qn(p.get("ref"), sch) if p.get("ref") else self.local_name(p, sch), r))
+            if many:
+                self.rep.add(out[-1][0])
             return r if collapse else r + 1
         if p.tag == _x("group"):
             g = self.groups.get(self.qn(p.get("ref"), sch))
@@ -565,6 +574,7 @@ def merge_ranks(pairs):
 
 
 _XSD = None
+_XSD_REP = {}     # (round 7) class index -> child names the schema files declare repeatable (maxOccurs != 1, own or of a group)
 
 
 def xsd_ranks():
@@ -582,6 +592,7 @@ def xsd_ranks():
                 continue
             info["classes_with_children"] += 1
             try:
+                S.rep = set()
                 ms = S.models(r.tag)
             except Unrankable as e:
                 info["unrankable"].append("%s: %s" % (r.name, e))
@@ -595,6 +606,7 @@ def xsd_ranks():
             m = [(t, ms[0][t]) for t, _m, _k, _l in r.children if t in ms[0]]
             if m:
                 ranks[i] = m
+                _XSD_REP[i] = set(S.rep)
                 info["with_content_model"] += 1
                 if len(m) >= 2:
                     info["with_two_or_more_ranked_children"] += 1
@@ -1646,6 +1658,8 @@ def observe_impl(case):
             return {"ok": True, "detail": "well-formed"}
         except ET.ParseError:
             return {"ok": False, "detail": "not well-formed"}
+    if what == "many":
+        return observe_many(case)
     if what == "av-unmodelled":
         r = lib_parse(idx, case["doc"].encode("utf-8"))
         if r[0] != "ok":
@@ -1657,6 +1671,133 @@ def observe_impl(case):
         same = abs_obj(r2[2]) == abs_obj(r[2]) and r2[2].to_string() == s2
         return {"ok": same, "detail": "stable" if same else "unstable", "text": r[2].text}
     raise ValueError(what)
+
+
+# ---------------------------------------------------------------------------- repeatable children (round 7)
+# WHETHER a child member holds a list was, until round 7, read off the very table under test (the brackets of the
+# c_children entry): generator, model and spec all followed a table whose entry had lost its brackets, and a
+# singleton member legitimately keeps the last occurrence only.  Multiplicity now has oracles that do not look at
+# the brackets: the XML Schema files (maxOccurs of the particle or of an enclosing group), c_cardinality (no "max"
+# or max > 1) and what the constructor stores for an absent argument (a list).  For every child member ANY of the
+# four sources calls repeatable, n = 1, 2, 3 (and above a small cap) marked occurrences are put in - as an instance
+# built with a list, and as an independently written document - and must all come back, as a list, in document
+# order, nothing surfacing as extension, the next serialisation byte-identical.
+MARK_NS = "urn:verif:c12:mark"
+MARK = "{%s}i" % MARK_NS
+# finding class 11 (C12-F11, open): members the schema files declare repeatable and the generated class holds as ONE object,
+# consistently (table, c_cardinality, constructor).  Listed by name: any OTHER member only the schema calls repeatable is
+# reported as a violation.
+XSD_ONLY_KNOWN = {(c, m) for c in ("saml2.xmldsig.X509DataType_", "saml2.xmldsig.X509Data")
+                  for m in ("x509_issuer_serial", "x509_ski", "x509_subject_name", "x509_certificate", "x509_crl")}
+
+
+def repeatable_members():
+    """[(class index, child tag, member, child class index, [oracles that say repeatable])]"""
+    t = tab()
+    xsd_ranks()
+    out = []
+    for i, r in enumerate(t.classes):
+        if r.kind != "plain":
+            continue
+        card = {m: (a, b) for m, a, b in r.cardinality}
+        try:
+            fresh = r.cls()
+        except Exception:  # noqa: BLE001
+            fresh = None
+        for tag, m, k, lst in r.children:
+            if k is None:
+                continue
+            why = []
+            if lst:
+                why.append("c_children")
+            if m in card and (card[m][1] is None or card[m][1] > 1):
+                why.append("c_cardinality")
+            if fresh is not None and isinstance(getattr(fresh, m, None), list):
+                why.append("constructor")
+            if i in _XSD_REP and tuple(tag) in _XSD_REP[i]:
+                why.append("xsd")
+            if why:
+                out.append((i, tag, m, k, why))
+    return out
+
+
+def generate_many(ctx, cases, rng):
+    for i, tag, m, k, why in repeatable_members():
+        r = tab().classes[i]
+        agreed = "c_children" in why and len(why) >= 2
+        if r.core or not agreed or ctx.thorough:
+            ns = [1, 2, 3] + ([33] if ctx.thorough or not agreed or rng.random() < 0.1 else [])
+        else:
+            ns = [rng.choice([2, 3])]
+        for n in ns:
+            cases.append({"kind": "impl", "c": i, "what": "many", "member": m, "tag": list(tag), "k": k, "n": n, "why": why,
+                          "rseed": rng.getrandbits(32)})
+
+
+def observe_many(case):
+    import random
+    from xml.sax.saxutils import quoteattr
+
+    idx, m, n = case["c"], case["member"], case["n"]
+    rec, krec = tab().classes[idx], tab().classes[case["k"]]
+    want = [str(j) for j in range(n)]
+    bad = []
+    av = krec.kind == "attrvalue"        # an AttributeValue child carries its mark as text (its foreign attributes: recipes, round 5)
+
+    def marks(o, label):
+        v = getattr(o, m, None)
+        if not isinstance(v, list):
+            # the SHAPE is demanded where the library itself declares a list (brackets, c_cardinality, constructor); where
+            # only the schema files call the child repeatable a single object may hold a single occurrence
+            if case["why"] != ["xsd"]:
+                bad.append("%s: member %s is %s, not a list" % (label, m, type(v).__name__))
+            v = [] if v is None else [v]
+        got = [x.text if av else getattr(x, "extension_attributes", {}).get(MARK) for x in v]
+        if got != want:
+            bad.append("%s: %d occurrence(s) put in, member %s holds %r" % (label, n, m, got))
+        if o.extension_elements:
+            bad.append("%s: %d extension element(s)" % (label, len(o.extension_elements)))
+
+    def parse(b, label):
+        r = lib_parse(idx, b)
+        if r[0] != "ok":
+            bad.append("%s: parse %s %s" % (label, r[0], r[1] or ""))
+            return None
+        marks(r[2], label)
+        return r[2]
+
+    # (1) an instance built with a list of n marked children
+    kids = [krec.cls(text=str(j)) if av else krec.cls(extension_attributes={MARK: str(j)}) for j in range(n)]
+    try:
+        inst = rec.cls(**{m: kids})
+    except TypeError:
+        inst = rec.cls()
+        setattr(inst, m, kids)
+    s1 = to_string(inst, "a built instance")
+    tags = [clark(c["g"]) for c in read(s1)["k"]]
+    if tags != [clark(case["tag"])] * n:
+        bad.append("instance: to_string() wrote the children %r" % (tags[:6],))
+    o1 = parse(s1, "instance")
+    if o1 is not None:       # byte identity is judged by the rt cases (a child may gain a schema default); here: nothing is lost again
+        parse(to_string(o1, "a parsed instance"), "instance, second serialisation")
+    # (2) an independently written document with n marked children (seeded prefix / default-namespace spelling)
+    prng = random.Random(case["rseed"])
+    (pns, plocal), (cns, clocal) = rec.tag, case["tag"]
+    pfx = prng.choice(["", "a", "ns0", "x"])
+    cp = prng.choice(["k", "ns1", "c_"]) if (cns != pns or prng.random() < 0.4) else pfx
+    decl = ' xmlns%s=%s' % (":" + pfx if pfx else "", quoteattr(pns)) + \
+           ('' if cp == pfx else ' xmlns:%s=%s' % (cp, quoteattr(cns))) + ' xmlns:vm=%s' % quoteattr(MARK_NS)
+    pq = (pfx + ":" if pfx else "") + plocal
+    cq = (cp + ":" if cp else "") + clocal
+    sep = prng.choice(["", "\n  ", " "])
+    doc = "<%s%s>%s%s</%s>" % (pq, decl, "".join(
+        '%s<%s vm:i="%d"%s' % (sep, cq, j, ">%d</%s>" % (j, cq) if av else prng.choice(["/>", "></%s>" % cq]))
+        for j in range(n)), sep.rstrip(" "), pq)
+    o2 = parse(doc.encode("utf-8"), "document")
+    if o2 is not None:
+        s2 = to_string(o2, "a parsed instance")
+        parse(s2, "document, re-parsed")
+    return {"ok": not bad, "detail": "all-kept" if not bad else "; ".join(bad)[:600], "doc": doc if n <= 3 else doc[:300]}
 
 
 # ---------------------------------------------------------------------------- generate / observe
@@ -1821,6 +1962,7 @@ def generate_round2(ctx, cases):
     generate_round5(ctx, cases, random.Random(rng.getrandbits(64)))
     generate_live(ctx, cases, random.Random(rng.getrandbits(64)))
     generate_seq(ctx, cases, random.Random(rng.getrandbits(64)))
+    generate_many(ctx, cases, random.Random(rng.getrandbits(64)))
 
 
 def generate_round3(ctx, cases, rng):
@@ -2550,6 +2692,8 @@ def coq_case(case, obs):
     if case["kind"] == "impl":
         if case["what"] == "av-root-xs":
             return "(IMPLF 4 %s)" % cq_bool(obs["ok"])
+        if case["what"] == "many" and case["why"] == ["xsd"] and (tab().classes[case["c"]].name, case["member"]) in XSD_ONLY_KNOWN:
+            return "(IMPLF 11 %s)" % cq_bool(obs["ok"])
         return "(IMPL %s)" % cq_bool(obs["ok"])
     if case["kind"] == "seq":
         return cq_seq(case, obs)
@@ -2634,6 +2778,8 @@ def _outcome(case, obs):
         r = obs["r1"]
         return r["k"] if r["k"] != "ok" else ("same" if r["o"] == obs["o_in"] and obs["same12"] else "changed")
     if case["kind"] == "impl":
+        if case["what"] == "many":
+            return "all-kept" if obs["ok"] else "LOST"
         return obs["detail"] if case["what"] in ("deep", "dtd-only", "av-unmodelled", "av-root-xs") else ("refused" if obs["ok"] else "ACCEPTED")
     r = obs["r1"] if case["kind"] == "rt" else obs["r"]
     if r["k"] != "ok":
@@ -2652,6 +2798,8 @@ def nontrivial(case, obs):
         if "form" in case:
             return ("impl", "extension_element" if case.get("entry") == "ee" else name, case["what"], out, obs.get("form"),
                     case.get("pad"), obs.get("control"))
+        if case["what"] == "many":
+            return ("impl", name, "many", case["member"], case["n"], out)
         return ("impl", name, case["what"], out)
     if "error" in obs or "skip" in obs:
         return None
